@@ -504,7 +504,7 @@ C_Skipped(c, trk, call, o) ==
   (call.op \in {"next", "len", "size_hint", "clone"} /\ ~HasIt(trk, call.it)) => o.k = "skipped"
 
 \* ---- header crate: C09 / C10 / C11 / C13 ---------------------------------------------------------
-HeaderOps == {"hload", "htags", "hget", "hfield", "hacc", "hdbg"}
+HeaderOps == {"hload", "htags", "hget", "hfield", "hacc", "hdbg", "hview"}
 IsHdrRead(call) == call.op \in {"hget", "hfield"}
 AcceptHNext(w, k, dead, o) ==
   IF dead THEN o.k \in {"panic", "none"}
@@ -525,6 +525,29 @@ AcceptHdrRead(c, trk, call, o) ==
          [] g.k = "panic" -> o.k = "panic"
          [] OTHER -> IF call.op = "hget" THEN (g.k = "free" /\ o.k = "panic") \/ IsView(o, g.it)
                      ELSE (g.k = "free" /\ o.k = "panic") \/ AcceptBySpec(HFieldSpec(c.mem, call.kind, call.f, g.it), o)
+\* a tag of the walk, by its position, viewed as a (possibly different) sized header-tag kind - the three entry-address
+\* kinds are documented as layout-identical, and a loader dispatching on typ() views all of them through one struct.
+\* The cast goes through iff the padded sizes agree; every accessor then decodes the bytes STORED in the tag (typ() the
+\* stored type, not the view's constant).  Enumerated fields are judged only where the stored value is one the
+\* enumeration defines (anything else is the caller's undefined behaviour, not the accessor's).
+HEnumRange(f) == CASE f = "flags" -> 2 [] f = "console_flags" -> 2 [] f = "preference" -> 3 [] OTHER -> 0
+HViewSpec(mem, call) ==
+  LET w == HWalk(mem)  K == HeaderKind(call.view) IN
+  IF call.i >= Len(w.items) THEN [k |-> IF w.fin = "none" THEN "none" ELSE "free"]
+  ELSE LET it == w.items[call.i + 1]  fld == HFieldNamed(K, call.f) IN
+       IF RoundUp8(it.size) # RoundUp8(K.wire) THEN [k |-> "panic"]
+       ELSE IF fld.n = "?" THEN [k |-> "free"]
+       ELSE LET raw == Bytes(mem, it.at + fld.off, fld.w) IN
+            IF call.f = "typ" /\ ~\E n \in HeaderKindNames : HeaderKind(n).id = LE2(raw) THEN [k |-> "free"]
+            ELSE IF HEnumRange(call.f) > 0 /\ (raw[1] >= HEnumRange(call.f) \/ \E j \in 2..Len(raw) : raw[j] # 0) THEN [k |-> "free"]
+            ELSE [k |-> "val", v |-> ZExt(raw, fld.rw)]
+AcceptHView(c, trk, call, o) ==
+  IF trk.loaded # "hdr" THEN o.k = "skipped"
+  ELSE LET s == HViewSpec(c.mem, call) IN
+       CASE s.k = "none" -> o.k = "none"
+         [] s.k = "panic" -> o.k = "panic"
+         [] s.k = "val" -> IsVal(o, s.v)
+         [] OTHER -> Controlled(o)
 AcceptHAcc(c, trk, call, o) ==
   IF trk.loaded # "hdr" THEN o.k = "skipped"
   ELSE CASE call.f = "header_magic" -> IsVal(o, Bytes(c.mem, 0, 4))
@@ -585,6 +608,7 @@ C11_Accept(c, trk, call, o) ==
          IF trk.loaded # "hdr" THEN o.k = "skipped"
          ELSE LET g == HGetSpec(c.mem, call.kind) IN
               g.k \in {"absent", "must", "panic"} => AcceptHdrRead(c, trk, call, o)
+    [] call.op = "hview" -> AcceptHView(c, trk, call, o)
     [] OTHER -> TRUE
 \* C05 for the header crate: the information-request list
 C05_HAccept(c, trk, call, o) ==
@@ -648,7 +672,7 @@ C07_Accept(c, trk, call, o) ==
   \* ... also through the iterators (tags, modules, EFI descriptors, ELF sections) of the built structure
   ELSE IF trk.img = "info" /\ call.op \in {"tags", "module_tags", "efi_areas", "elf_sections", "next", "len", "size_hint", "nth", "count", "last"}
        THEN C03_Accept(c, trk, call, o) /\ C18_Accept(c, trk, call, o) /\ C19_Accept(c, trk, call, o)
-  ELSE IF trk.img = "header" /\ (IsHdrRead(call) \/ call.op = "hacc") THEN C11_Accept(c, trk, call, o)
+  ELSE IF trk.img = "header" /\ (IsHdrRead(call) \/ call.op \in {"hacc", "hview"}) THEN C11_Accept(c, trk, call, o)
   ELSE TRUE
 \* "an equal tag" also in the sense of the type's own PartialEq (where the type has one)
 CloneEq(cl) == Has(cl, "eq") => cl.eq = 1
@@ -834,6 +858,18 @@ DesignHdrRead(mem, call) ==
          ELSE IF call.op = "hget" THEN Some(ViewRec(f.it))
          ELSE Canon(HFieldSpec(mem, call.kind, call.f, f.it))
 
+\* the design of a positional view: step the iterator i + 1 times, cast (size assertion), read the stored field
+RECURSIVE DesignHNth(_, _, _, _)
+DesignHNth(mem, end, cur, n) ==
+  LET r == DesignTagNext(mem, end, cur, FALSE) IN
+  IF r.o.k # "some" \/ n = 0 THEN r.o ELSE DesignHNth(mem, end, r.cur, n - 1)
+DesignHView(mem, call) ==
+  LET r == DesignHNth(mem, U32At(mem, 8), 16, call.i)  K == HeaderKind(call.view) IN
+  IF r.k # "some" THEN r
+  ELSE IF DesignCastSized(r.v.at, RoundUp8(K.wire), LE4(r.v.size)).k = "panic" THEN Panic
+  ELSE LET fld == HFieldNamed(K, call.f) IN
+       IF fld.n = "?" THEN Panic ELSE Val(ZExt(Bytes(mem, r.v.at + fld.off, fld.w), fld.rw))
+
 DesignCustomGet(c, call) ==
   LET f == DesignFind(c.mem, U32At(c.mem, 0), 8, call.id) IN
   CASE f.k = "absent" -> None
@@ -998,6 +1034,7 @@ DesignStep(c0, ds, call) ==
                        [] OTHER -> BoolVal(TRUE), ds |-> ds]
     [] IsHdrRead(call) ->
          [o |-> IF ds.loaded # "hdr" THEN Skipped ELSE DesignHdrRead(c.mem, call), ds |-> ds]
+    [] call.op = "hview" -> [o |-> IF ds.loaded # "hdr" THEN Skipped ELSE DesignHView(c.mem, call), ds |-> ds]
     [] call.op = "hdbg" -> [o |-> IF ds.loaded = "none" THEN Skipped ELSE Unit, ds |-> ds]
     [] call.op = "basic" ->       \* verify_checksum recomputes the checksum and compares
          [o |-> IF call.f = "verify_checksum"
